@@ -2,7 +2,7 @@
 From ChiaV.Base Require Import Bytes.
 From ChiaV.Clvm Require Import Sexp Ints.
 From ChiaV.Gen Require Import Builder.
-From ChiaV.Bundle Require Import SolutionGen Interned Builder BuilderExec InternedProofs BuilderProofs BuilderRefuted.
+From ChiaV.Bundle Require Import SolutionGen Interned Builder BuilderExec InternedProofs BuilderProofs BuilderTotal BuilderRefuted.
 Open Scope N_scope.
 From ChiaV.Props Require Import C10.
 Check C10_wrapper_vbytes :
@@ -92,18 +92,49 @@ Print Assumptions C10_compressed_history.
 Check C10_serializer_ok_nonvacuous :
   @serializer_ok pser unit p_add p_restore p_size p_finish p_output (@fst _ _) node_from_bytes ([], O).
 Print Assumptions C10_serializer_ok_nonvacuous.
-Check C10_interned_overflow_refuted :
+Check C10_interned_never_overflows :
+  forall (Sig : Type) (sig_one : Sig) (sig_mul : Sig -> Sig -> Sig) (cpb maxc : N),
+  2 * maxc + I_MIN_COST_THRESHOLD < U64 ->
+  I_INITIAL_BLOCK_COST + WRAPPER_VBYTES * cpb <= maxc ->
+  forall h st rs,
+  Forall (i_fits Sig cpb maxc) h -> N.of_nat (length h) < U32 ->
+  run_hist (i_step Sig sig_one sig_mul (checked_cfg cpb maxc)) (i_init Sig sig_one) h = (st, rs) ->
+  ~ In RPanic rs.
+Print Assumptions C10_interned_never_overflows.
+Check C10_compressed_never_overflows :
+  forall (Sig : Type) (sig_one : Sig) (sig_mul : Sig -> Sig -> Sig) (cpb maxc : N),
+  2 * maxc + C_MIN_COST_THRESHOLD < U64 ->
+  forall (sstate hint : Type) (s_add : sstate -> hint -> list sexp -> sstate) (s_restore : sstate -> sstate -> sstate)
+         (s_size : sstate -> N),
+  (forall s h l, s_size (s_restore (s_add s h l) s) = s_size s) ->
+  (forall s h l, s_size (s_add s h l) + C_CLOSING_BYTES < U64 /\
+                 (s_size (s_add s h l) + C_CLOSING_BYTES) * cpb + 2 * maxc < U64) ->
+  forall s0 : sstate,
+  C_INITIAL_BLOCK_COST + (s_size s0 + 2) * cpb <= maxc -> s_size s0 + 2 < U64 ->
+  forall h st rs,
+  N.of_nat (length h) < U32 ->
+  run_hist (c_step Sig sig_one sig_mul sstate hint s_add s_restore s_size (checked_cfg cpb maxc)) (c_init Sig sig_one sstate s0) h = (st, rs) ->
+  ~ In RPanic rs.
+Print Assumptions C10_compressed_never_overflows.
+Check C10_prefix_interned_overflow_refuted :
   snd (i_run Wrap i_witness) = [RAdded false] /\
   (exists g s, i_finalize xsig (real_cfg Wrap) (fst (i_run Wrap i_witness)) = IFOk xsig g s 0) /\
   c_max (real_cfg Wrap) < ia_cost xsig (hd {| ia_bundles := []; ia_cost := 0 |} i_witness) /\
   snd (i_run Checked i_witness) = [RPanic].
-Print Assumptions C10_interned_overflow_refuted.
-Check C10_compressed_overflow_refuted :
+Print Assumptions C10_prefix_interned_overflow_refuted.
+Check C10_prefix_compressed_overflow_refuted :
   snd (c_run Wrap c_witness) = [RAdded false] /\
   (exists g s, c_finalize xsig xser x_size x_finish x_output (real_cfg Wrap) (fst (c_run Wrap c_witness)) = CFOk xsig g s 60000) /\
   c_max (real_cfg Wrap) < ca_cost xsig N (hd {| ca_bundles := []; ca_cost := 0; ca_hint := 0 |} c_witness) /\
   snd (c_run Checked c_witness) = [RPanic].
-Print Assumptions C10_compressed_overflow_refuted.
+Print Assumptions C10_prefix_compressed_overflow_refuted.
+Check C10_overflow_witnesses_now_rejected :
+  forall m,
+  snd (run_hist (i_step xsig xsig_one xsig_mul (real_cfg m)) (i_init xsig xsig_one) i_witness) = [RRejected false] /\
+  ib_items xsig (fst (run_hist (i_step xsig xsig_one xsig_mul (real_cfg m)) (i_init xsig xsig_one) i_witness)) = [] /\
+  snd (run_hist (c_step xsig xsig_one xsig_mul xser N x_add x_restore x_size (real_cfg m)) (c_init xsig xsig_one xser x_init) c_witness)
+    = [RRejected false].
+Print Assumptions C10_overflow_witnesses_now_rejected.
 Check C10_compressed_initial_estimate_refuted :
   forall m, c_cost xsig xser (real_cfg m) (c_init xsig xsig_one xser x_init) = Some 20 /\
             exists g s, c_finalize xsig xser x_size x_finish x_output (real_cfg m) (c_init xsig xsig_one xser x_init) = CFOk xsig g s 60020.
